@@ -140,9 +140,9 @@ func (e *env) build() {
 		}
 		return &x
 	}, func() object { return &structs.Vector[ring.Poly]{} })
-	e.add("structs.Map[int,ring.Poly]", 3, func(v int) object {
+	e.add("structs.Map[int,ring.Poly]", 4, func(v int) object {
 		x := structs.Map[int, ring.Poly]{}
-		for i := 0; i < []int{2, 1, 3}[v]; i++ {
+		for i := 0; i < []int{2, 1, 3, 0}[v]; i++ { // value 3: the empty map
 			pl := e.randPoly(i % (L + 1))
 			x[i*3+v] = &pl
 		}
@@ -164,7 +164,14 @@ func (e *env) build() {
 		pt.Scale = rlwe.NewScale(float64(5 + v))
 		return pt
 	}, func() object { return &rlwe.Plaintext{} })
-	e.add("rlwe.Ciphertext", 4, func(v int) object { return e.ct([]int{1, 2, 0, 1}[v], []int{L, 1, 0, 0}[v], []int{0, 3, 5, 6}[v]) },
+	e.add("rlwe.Ciphertext", 5, func(v int) object {
+		if v == 4 { // an element without metadata (the encoding has a presence flag for it)
+			ct := e.ct(1, 1, 0)
+			ct.MetaData = nil
+			return ct
+		}
+		return e.ct([]int{1, 2, 0, 1}[v], []int{L, 1, 0, 0}[v], []int{0, 3, 5, 6}[v])
+	},
 		func() object { return &rlwe.Ciphertext{} })
 	e.add("rlwe.SecretKey", 2, func(v int) object {
 		if v == 0 {
@@ -233,7 +240,10 @@ func (e *env) build() {
 		tr.Must(enc.EncryptZero(ct))
 		return ct
 	}, func() object { return &rgsw.Ciphertext{} })
-	e.add("polynomial.PowerBasis", 2, func(v int) object {
+	e.add("polynomial.PowerBasis", 3, func(v int) object {
+		if v == 2 { // no power stored yet
+			return &polynomial.PowerBasis{Basis: bignum.Chebyshev, Value: structs.Map[int, rlwe.Ciphertext]{}}
+		}
 		pb := polynomial.NewPowerBasis(e.ct(1, L, 0), []bignum.Basis{bignum.Monomial, bignum.Chebyshev}[v])
 		if v == 1 {
 			pb.Value[2] = e.ct(2, 1, 3)
@@ -462,12 +472,34 @@ func equalObjects(want, have object) (eq bool) {
 				continue
 			}
 		}
+		// an Equal method that cannot even compare the written object with itself (nil metadata) is not used
+		if !selfEqual(m, pair[0]) {
+			continue
+		}
 		out := m.Call([]reflect.Value{arg})
 		if len(out) == 1 && out[0].Kind() == reflect.Bool && !out[0].Bool() {
 			return false
 		}
 	}
 	return true
+}
+
+func selfEqual(m reflect.Value, o object) (ok bool) {
+	defer func() {
+		if r := recover(); r != nil {
+			ok = false
+		}
+	}()
+	arg := reflect.ValueOf(o)
+	if m.Type().In(0) != arg.Type() {
+		if arg.Kind() == reflect.Ptr && m.Type().In(0) == arg.Type().Elem() {
+			arg = arg.Elem()
+		} else {
+			return false
+		}
+	}
+	out := m.Call([]reflect.Value{arg})
+	return len(out) == 1 && out[0].Kind() == reflect.Bool && out[0].Bool()
 }
 
 type driver struct {
